@@ -184,8 +184,11 @@ def check_stream_str(ctx):
         B = untok(f[1])
         fo = dict(x.split("=", 1) for x in o.split())
         bad = None
-        if "PANIC" in (fo.get("tb"), fo.get("ab"), fo.get("wd")):
-            bad = "ToBasePath/Abs/Getwd panics"
+        B = posixpath.normpath(B)
+        if B.startswith("//"):
+            B = B[1:]
+        if "PANIC" in (fo.get("tb"), fo.get("ab"), fo.get("wd"), fo.get("fe")):
+            bad = "ToBasePath/Abs/Getwd/FromPathError panics where the model returns a value"
         elif fo.get("tb", "").startswith("s"):
             tb = posixpath.normpath(untok(fo["tb"])) if untok(fo["tb"]) else "."
             if not (tb == B or B == "/" or tb.startswith(B + "/")):
@@ -231,7 +234,8 @@ def extraction_crosscheck(ctx, n):
                 "Definition rows : list (str * str * str * option str * option str * option str) := [\n  "
                 + ";\n  ".join(rows) + "].\n"
                 "Definition row_ok (r : str * str * str * option str * option str * option str) : bool :=\n"
-                "  let '(b, cwd, p, tb, fb, wd) := r in\n"
+                "  let '(b0, cwd, p, tb, fb, wd) := r in\n"
+                "  let b := abs Linux [SLASH] b0 in   (* NewWithErr: basePath = baseFS.Abs(given) *)\n"
                 "  opt_eqb str_eqb (to_base_path Linux b cwd p) tb && opt_eqb str_eqb (from_base_path Linux b p) fb\n"
                 "  && opt_eqb str_eqb (bp_getwd Linux b cwd) wd.\n"
                 "Goal forallb row_ok rows = true. Proof. vm_compute. reflexivity. Qed.\n")
@@ -257,6 +261,9 @@ def diagnose_table(ctx):
             continue   # allow-listed raw results (BasePathTable.raw_result_allowed / raw_string_allowed)
         if re.search(r'Unknown|RStrPanicky|RErrRaw|RStrRaw|ARaw "\w+" true', shape):
             sus.append("%s.%s: %s" % (recv, name, " ".join(shape.split())[:200]))
+    gp = dict((n, pr) for (n, pr) in re.findall(r'm_name := "(FromBasePath|fromBasePath)";.*?m_shape := Guarded "([^"]*)"', src, flags=re.S))
+    if len(gp) != 2 or gp.get("FromBasePath") != gp.get("fromBasePath"):
+        sus.append("guards_consistent: FromBasePath panics unless %r, fromBasePath translates unless %r - they must be the same predicate" % (gp.get("FromBasePath"), gp.get("fromBasePath")))
     fns = re.search(r"generic_fns.*?:=\s*\[(.*?)\]\.", src, flags=re.S)
     if fns:
         sus += ["generic function avfs.%s reaches a file system other than through its vfs parameter (or is not generic)" % n
